@@ -1383,6 +1383,8 @@ class PureInterp:
             return dict(o.parameters) if n.attr == "parameters" else getattr(o, n.attr)
         if type(o).__module__ == "urllib.parse" and hasattr(type(o), "_fields") and n.attr in ("hostname", "port", "username", "password"):
             return getattr(o, n.attr)
+        if (o is None or isinstance(o, (bool, int, float, str, bytes, list, dict, set, frozenset, tuple))) and not hasattr(o, n.attr):
+            raise Raised("AttributeError", f"'{type(o).__name__}' object has no attribute '{n.attr}'")     # e.g. proc.returncode while proc is still None
         return ("method", o, n.attr)
 
     def e_JoinedStr(self, n, env, module, depth):
